@@ -498,6 +498,7 @@ class Engine:
         if m: return s.load(st, fr, parse_place(m.group(1)))
         if o.startswith('const '): return s.const(st, fr, o[6:])
         if re.match(r'^[A-Za-z_<]', o) and '::' in o: return FnItem(o)      # bare function item
+        if re.match(r'^[A-Z]\w*$', o) and s.decls is not None and o in getattr(s.decls, 'structs', {}): return FnItem('ctor ' + o)      # tuple-struct constructor
         raise EngineError('operand? ' + o)
     def const(s, st, fr, c):
         c = c.strip()
@@ -862,6 +863,7 @@ class Engine:
         return r
     def call_by_name(s, st, fr, callee, args, after, kdata=None):
         """dispatch `callee` (call-site text) through models / the dump; the result goes to after(eng, st, fr, kdata, value)"""
+        if callee.startswith('ctor '): return after(s, st, fr, kdata, Agg(tuple(args), callee[5:]))
         ctx = CtxK(s, st, fr, None, callee, tuple('?' for _ in args), tuple(args), None); ctx.after = after; ctx.kdata = kdata
         for pat, h in s.overrides + s.models:
             if pat.search(callee):
